@@ -811,6 +811,8 @@ class Interp:
                     return ClassRef(obj.cls)
             if "__native__" in obj.attrs and hasattr(obj.attrs["__native__"], attr):
                 return ("native", obj.attrs["__native__"], attr)
+            if obj.attrs.get("__closed__"):
+                raise Raised("AttributeError")  # the abstract state of this object is complete: a missing attribute is missing
             raise AnalysisError(f"attribute `{attr}` of abstract {obj!r} is not in the abstract state and not defined by its class")
         if isinstance(obj, ClassRef):
             cls = obj.cls
@@ -828,11 +830,21 @@ class Interp:
             if attr == "__name__":
                 return cls.name
             raise AnalysisError(f"class attribute {cls.qualname}.{attr} not found")
+        if isinstance(obj, FunctionInfo) and attr == "cache_clear" and any(d.split(".")[-1] in ("cache", "lru_cache") for d in obj.decorators):
+            def cache_clear(q=obj.qualname):
+                for mk in [k for k in self._memo if k[0] == q]:
+                    del self._memo[mk]
+            return Native(cache_clear)
         if isinstance(obj, Module):
             return self.global_name(obj, attr)
         if isinstance(obj, ExtRef):
             if obj.name == "ast" and hasattr(ast, attr):
                 return getattr(ast, attr)  # syntax-tree classes / constants of the stdlib (pure data definitions)
+            if obj.name == "re" and attr.isupper():
+                import re as _re
+
+                if hasattr(_re, attr):
+                    return getattr(_re, attr)  # regex flags (constants)
             return ExtRef(f"{obj.name}.{attr}")
         if isinstance(obj, IntSym):
             if attr == "value":
@@ -896,6 +908,12 @@ class Interp:
                 raise Raised("AttributeError") from None
         if isinstance(obj, type) and attr in ("__name__", "__qualname__", "__module__"):
             return getattr(obj, attr)
+        if type(obj).__module__ == "re" and type(obj).__name__ in ("Pattern", "Match"):
+            if attr in ("pattern", "flags", "groups", "groupindex", "string", "pos", "endpos", "lastindex", "lastgroup", "re") and not callable(getattr(obj, attr)):
+                return getattr(obj, attr)
+            if hasattr(obj, attr):
+                return ("native", obj, attr)
+            raise Raised("AttributeError")
         # python-native value: expose a whitelisted method
         if isinstance(obj, (str, list, tuple, dict, set, frozenset, int, bool)):
             if not hasattr(obj, attr):
@@ -1048,7 +1066,15 @@ class Interp:
             if name not in vals:
                 hit = self.prog.lookup_class_attr(cls, name)
                 if hit:
-                    vals[name] = self.eval(hit[1], Env(hit[0].module, None, hit[0]))
+                    v = self.eval(hit[1], Env(hit[0].module, None, hit[0]))
+                    if isinstance(v, tuple) and len(v) == 2 and v[0] == "__field__":
+                        if "default_factory" in v[1]:
+                            v = self.apply(v[1]["default_factory"], [], {})
+                        elif "default" in v[1]:
+                            v = v[1]["default"]
+                        else:
+                            raise Raised("TypeError")
+                    vals[name] = v
         obj.attrs.update(vals)
         post = self.prog.lookup_method(cls, "__post_init__")
         if post:
@@ -1145,6 +1171,24 @@ class Interp:
                 raise Raised(type(ex).__name__) from None
         if name in ("typing.cast", "cast"):
             return args[1]
+        if name.startswith("re.") and short in ("compile", "match", "search", "fullmatch", "sub", "subn", "split", "findall", "finditer", "escape"):
+            import re as _re
+
+            # regular expressions over concrete strings are pure functions of their arguments
+            if any(isinstance(a, (Obj, Closure, Bound, FunctionInfo, Sym)) for a in [*args, *kwargs.values()]):
+                raise AnalysisError(f"re.{short} over abstract values not modelled")
+            try:
+                out = getattr(_re, short)(*args, **kwargs)
+            except (_re.error, *NATIVE_EXC) as ex:
+                raise Raised(type(ex).__name__) from None
+            return list(out) if short == "finditer" else out
+        if name in ("textwrap.dedent", "inspect.cleandoc", "textwrap.indent") and all(isinstance(a, str) for a in args):
+            import inspect as _inspect
+            import textwrap as _textwrap
+
+            return {"textwrap.dedent": _textwrap.dedent, "inspect.cleandoc": _inspect.cleandoc, "textwrap.indent": _textwrap.indent}[name](*args, **kwargs)
+        if name in ("dataclasses.field", "field"):
+            return ("__field__", kwargs)
         if short == "suppress":
             return None
         raise AnalysisError(f"external call `{name}` not modelled by the abstract evaluator" + (f" (`{unparse(site)[:60]}`)" if site is not None else ""))
